@@ -90,6 +90,10 @@ def main():
             if len(out["samples"]) < 2 and res.nontrivial and res.violation is None:
                 out["samples"].append({"idx": i, "seed": seed, "machine": mname, "knobs": case.get("knobs"), "ops": case["ops"]})
             if res.violation is not None:
+                if res.derived_case is not None:
+                    case = res.derived_case  # enumerated regime: the failing derived history is the replayable case
+                    case["property"] = prop
+                    case["idx"] = i
                 if len(out["violations"]) < 40:
                     out["violations"].append({"idx": i, "seed": seed, "case": case, "violation": res.violation, "digest": res.digest,
                                               "tag": m.case_tag(case) if hasattr(m, "case_tag") else ""})
